@@ -40,6 +40,9 @@ CLAIMED = {
  "C04": ("bounds obligations over the frame decoders and the receive path decided by linear integer arithmetic with inductively inferred contracts (including success-conditional postconditions such as 'a frame read without error is ≥ 10 bytes'); acceptance facts proved at every success exit with boundary-reachability queries; validate-before-allocate facts at the frame allocation; path-exact iteration table of readN (deadline policy, in-frame flag) and of recvLoop; reachability/who-may-call analysis of the lazy body decode",
          "Decides that no byte string or segmentation can make frame decoding or dispatch panic on a bounds check, that the three decode entry points and decodeOwnedFrame accept exactly 10 ≤ length ≤ cap / exact length / PType 0 / defined SType (boundaries included), that the receive path validates the length field before it sizes an allocation, that before every Read the deadline is now()+T8 iff a byte of the current frame has been read and the flag is shared across both reads of a frame, that a read error ends the loop without dispatch, and that the body is decoded lazily once under a sync.Once shared by all copies. Timing and kernel semantics are not decided.",
          "§4 C04"),
+ "C12": ("origin analysis of reference-carrying values (fresh / caller's / internal field / global storage) with interprocedural summaries over the VTA call graph; who-may-write enumeration of every field and element of the immutable types with under-construction / once-guard classification of the written object; caller enumeration of the zero-copy bridge; sync.Once discipline of the lazy decode and memoized encoding",
+         "Decides for every store into item/message/body/decode-state storage that the stored slice, map or raw pointer is fresh, a copy, or owned storage on a documented ownership-transfer path; for every exported function and method of those types that no returned slice/map/pointer is internal field storage; for every write to a field or element of those types that the written object is still under construction or the write runs under the object's own sync.Once; and that the lazy decode/encode run at most once and are shared by re-stamped copies. Race freedom is argued from these facts, not observed.",
+         "§4 C12"),
  "C14": ("bounds/size obligations over the parse fragment decided by linear integer arithmetic on SSA values with inductively inferred contracts and Parser field invariants (data = input[pos:], len = len(input), 0 ≤ pos ≤ len); recursion-cycle depth-parameter analysis; provenance of every ParseError offset and decision table of the line/column scan; who-may-write enumeration of package variables and Parser/Encoder fields",
          "Decides that every index/slice of the scan window, every forward/backward step and every allocation size (make, Builder.Grow) reachable from the Parse entry points is in range / bounded by the unread input for every text, that list nesting is depth-bounded before recursion, that every syntax error's offset is a parser position clamped to len(input) with line/column derived from exactly that prefix, and that parser/encoder instances share no mutable state. Does not decide running time or messages' values.",
          "§4 C14"),
